@@ -155,6 +155,8 @@ class MatchStub(_SolverStub):
 
     def min_clause(self, call_index, competitor_bits):
         """w.c <= w.c' for a competitor c' with the same syndrome (instantiated optimality)."""
+        if call_index >= len(self.calls):
+            return z3.BoolVal(True)       # the engine was not called: nothing to assume
         s, c = self.calls[call_index]
         w = [term_of(x, 'real') for x in np.asarray(self.weights).reshape(-1)]
         same = z3.And([z3_xor([competitor_bits[j] for j in row]) == si for row, si in zip(self.rows, s)])
